@@ -29,10 +29,73 @@ type ModSet struct {
 	allocates  bool         // allocates objects (results of reference sort may be fresh)
 	readsAll   bool
 	readSorts  map[string]bool // heap sorts read (when !readsAll)
+	storeAdd   bool            // only creates/rewrites store keys, never removes them (declared)
+	readFields map[int]bool    // read footprint: leaf field ids
+	readElems  map[string]bool // read footprint: element cells of a sort
+	readWhole  map[string]bool // reads through pointers of unknown origin: whole sort
+}
+
+// footprint describes what a deterministic function reads of one heap sort.
+type footprint struct {
+	sort   string
+	whole  bool
+	elems  bool
+	fields []int
+}
+
+func (f footprint) key() string {
+	if f.whole {
+		return f.sort + ":*"
+	}
+	s := f.sort + ":"
+	if f.elems {
+		s += "e"
+	}
+	for _, id := range f.fields {
+		s += fmt.Sprintf(",%d", id)
+	}
+	return s
+}
+
+// footprints: per heap sort the function reads.
+func (m *ModSet) footprints() []footprint {
+	var out []footprint
+	if !m.readsHeap {
+		return nil
+	}
+	for _, s := range heapSorts {
+		if !(m.readsAll || m.readSorts[s]) {
+			continue
+		}
+		fp := footprint{sort: s}
+		if m.readsAll || m.readWhole[s] {
+			fp.whole = true
+		} else {
+			fp.elems = m.readElems[s]
+			for _, id := range sortedInts(m.readFields) {
+				fs := "Int"
+				if v := fieldByID[id]; v != nil {
+					fs = sortOf(v.Type())
+				} else {
+					for g, gid := range globalIDs {
+						if gid == id {
+							fs = sortOf(g.Type().Underlying().(*types.Pointer).Elem())
+						}
+					}
+				}
+				if fs == s {
+					fp.fields = append(fp.fields, id)
+				}
+			}
+		}
+		out = append(out, fp)
+	}
+	return out
 }
 
 func newModSet() *ModSet {
-	return &ModSet{sorts: map[string]bool{}, fields: map[int]bool{}, elems: map[string]bool{}, freeVars: map[int]bool{}, callsParam: map[int]bool{}, readSorts: map[string]bool{}}
+	return &ModSet{sorts: map[string]bool{}, fields: map[int]bool{}, elems: map[string]bool{}, freeVars: map[int]bool{}, callsParam: map[int]bool{}, readSorts: map[string]bool{},
+		readFields: map[int]bool{}, readElems: map[string]bool{}, readWhole: map[string]bool{}}
 }
 
 // heapArgs: the heap sorts a deterministic function's result may depend on.
@@ -51,7 +114,7 @@ func (m *ModSet) heapArgs() []string {
 
 func (m *ModSet) size() int {
 	n := len(m.sorts) + len(m.fields) + len(m.elems) + len(m.freeVars) + len(m.callsParam)
-	for _, b := range []bool{m.all, m.maps, m.sync, m.storeMut} {
+	for _, b := range []bool{m.all, m.maps, m.sync, m.storeMut, m.storeAdd} {
 		if b {
 			n++
 		}
@@ -74,10 +137,20 @@ func (m *ModSet) merge(o *ModSet) {
 	for k := range o.readSorts {
 		m.readSorts[k] = true
 	}
+	for k := range o.readFields {
+		m.readFields[k] = true
+	}
+	for k := range o.readElems {
+		m.readElems[k] = true
+	}
+	for k := range o.readWhole {
+		m.readWhole[k] = true
+	}
 	m.allocates = m.allocates || o.allocates
 	m.maps = m.maps || o.maps
 	m.sync = m.sync || o.sync
 	m.storeMut = m.storeMut || o.storeMut
+	m.storeAdd = m.storeAdd || o.storeAdd
 	for k := range o.sorts {
 		m.sorts[k] = true
 	}
@@ -525,6 +598,21 @@ func (p *Program) callMods(ms *ModSet, c *ssa.CallCommon) {
 			}
 		}
 	}
+	// functional options (type XxxOption func(*T)): assumed to write only through their arguments
+	if n, ok := c.Value.Type().(*types.Named); ok && strings.HasSuffix(n.Obj().Name(), "Option") {
+		ms.nondet = true
+		ms.readsHeap = true
+		ms.readsAll = true
+		p.externalArgMods(ms, c.Args)
+		return
+	}
+	// a function value returned by telemetry code (metrics.Usage.UsedAll(...)(err))
+	if call, ok := traceLocal(c.Value).(*ssa.Call); ok {
+		if callee := call.Call.StaticCallee(); callee != nil && isTelemetry(callee) {
+			ms.nondet = true
+			return
+		}
+	}
 	ms.setAll("call of unknown function value " + c.Value.Name())
 }
 
@@ -618,6 +706,29 @@ func (p *Program) instrMods(ms *ModSet, ins ssa.Instruction) {
 			}
 			for s := range elems {
 				ms.readSorts[s] = true
+			}
+			// footprint: which cells of which sort are read
+			for id := range fields {
+				ms.readFields[id] = true
+			}
+			for s := range elems {
+				ms.readElems[s] = true
+			}
+			if s := sortOf(x.Type()); isHeapScalar(s) {
+				switch a := stripVal(x.X).(type) {
+				case *ssa.FieldAddr:
+					if st := structOf(a.X.Type()); st != nil {
+						ms.readFields[fieldID(st.Field(a.Field))] = true
+					} else {
+						ms.readWhole[s] = true
+					}
+				case *ssa.IndexAddr:
+					ms.readElems[s] = true
+				case *ssa.Global:
+					ms.readFields[globalID(a)] = true
+				default:
+					ms.readWhole[s] = true
+				}
 			}
 		}
 	case *ssa.Alloc:
@@ -727,6 +838,28 @@ func (p *Program) isDet(fn *ssa.Function) bool {
 	return true
 }
 
+// Telemetry packages of datamon: assumed not to write any state the contracts talk about.
+var telemetryPkgs = []string{datamonPrefix + "/pkg/metrics", datamonPrefix + "/pkg/dlogger"}
+
+func isTelemetry(fn *ssa.Function) bool {
+	path := ""
+	f := fn
+	for f.Pkg == nil && f.Parent() != nil {
+		f = f.Parent()
+	}
+	if f.Pkg != nil {
+		path = f.Pkg.Pkg.Path()
+	} else if o := fn.Object(); o != nil && o.Pkg() != nil {
+		path = o.Pkg().Path()
+	}
+	for _, t := range telemetryPkgs {
+		if path == t || strings.HasPrefix(path, t+"/") {
+			return true
+		}
+	}
+	return false
+}
+
 // computeMods runs the summary fixpoint over all built datamon functions.
 func (p *Program) computeMods() {
 	var fns []*ssa.Function
@@ -750,8 +883,16 @@ func (p *Program) computeMods() {
 					p.instrMods(ms, ins)
 				}
 			}
+			if isTelemetry(fn) {
+				// keep the read/determinism flags, drop the (assumed irrelevant) writes
+				ms.all, ms.maps, ms.sync, ms.storeMut = false, false, false, false
+				ms.sorts, ms.fields, ms.elems = map[string]bool{}, map[int]bool{}, map[string]bool{}
+				ms.freeVars, ms.callsParam = map[int]bool{}, map[int]bool{}
+				ms.nondet = true
+			}
 			if ms.size() != p.mods[fn].size() || ms.all != p.mods[fn].all || ms.nondet != p.mods[fn].nondet || ms.readsHeap != p.mods[fn].readsHeap || ms.allocates != p.mods[fn].allocates ||
-				ms.readsAll != p.mods[fn].readsAll || len(ms.readSorts) != len(p.mods[fn].readSorts) {
+				ms.readsAll != p.mods[fn].readsAll || len(ms.readSorts) != len(p.mods[fn].readSorts) ||
+				len(ms.readFields) != len(p.mods[fn].readFields) || len(ms.readElems) != len(p.mods[fn].readElems) || len(ms.readWhole) != len(p.mods[fn].readWhole) {
 				changed = true
 			}
 			p.mods[fn] = ms
@@ -770,6 +911,8 @@ func (p *Program) declaredMods(c *FuncContract, fn *ssa.Function) *ModSet {
 		switch {
 		case m == "store":
 			ms.storeMut = true
+		case m == "store-additive":
+			ms.storeAdd = true
 		case m == "sync":
 			ms.sync = true
 		case m == "all":
@@ -779,14 +922,24 @@ func (p *Program) declaredMods(c *FuncContract, fn *ssa.Function) *ModSet {
 		case strings.HasPrefix(m, "elems:"):
 			ms.elems[specSort(strings.TrimPrefix(m, "elems:"))] = true
 		case strings.HasPrefix(m, "field:"):
-			parts := strings.SplitN(strings.TrimPrefix(m, "field:"), ".", 2)
+			parts := strings.Split(strings.TrimPrefix(m, "field:"), ".")
 			f := fn
 			for f.Pkg == nil && f.Parent() != nil {
 				f = f.Parent()
 			}
 			ok := false
-			if len(parts) == 2 && f.Pkg != nil {
-				if obj := f.Pkg.Pkg.Scope().Lookup(parts[0]); obj != nil {
+			var scope *types.Scope
+			if f.Pkg != nil {
+				scope = f.Pkg.Pkg.Scope()
+			}
+			if len(parts) == 3 { // pkg.Type.field
+				if sp, found := p.spkgs[parts[0]]; found {
+					scope = sp.Pkg.Scope()
+				}
+				parts = parts[1:]
+			}
+			if len(parts) == 2 && scope != nil {
+				if obj := scope.Lookup(parts[0]); obj != nil {
 					if st := structOf(obj.Type()); st != nil {
 						if path := findFieldPath(st, parts[1]); len(path) == 1 {
 							fields, elems := map[int]bool{}, map[string]bool{}
